@@ -59,6 +59,15 @@ func c10Scenarios(thorough bool) []*scenario {
 			{{Kind: "auth", User: "u", Pw: "old"}, {Kind: "auth", User: "u", Pw: "bad"}},
 		}})
 	}
+	// several hook rounds (one client, changes one after the other) with a hook that cannot be
+	// started, fails, or hangs: after every round the hooks loop must be back at its loop head
+	for _, hk := range []string{"nostart", "fail", "hang"} {
+		if hk != "nostart" && !thorough {
+			continue
+		}
+		out = append(out, &scenario{Name: fmt.Sprintf("scaled-k1-three-rounds-hooks[%s]", hk), Upgrades: "", Hooks: hk, CapLimit: 1, Default: 1, Users: stdUsers, Clients: [][]cop{
+			{{Kind: "update", User: "v", Pw: "n1"}, {Kind: "update", User: "v", Pw: "n2"}, {Kind: "update", User: "v", Pw: "n3"}, {Kind: "auth", User: "v", Pw: "n3"}}}})
+	}
 	// many successful logins of upgradeable users while the upgrade master stalls: every
 	// queue of the remote-upgrade path (upgrade queue, in-flight limiter) fills up
 	for _, k := range caps {
